@@ -615,6 +615,9 @@ func (ex *Exec) eqVal(a, b *Val) string {
 			if bt, ok := n.T.(*types.Basic); ok && bt.Kind() == types.UntypedNil && c.Sh != nil {
 				r := ex.eng.smt.fresh("isnil", "Bool")
 				switch c.Sh.Kind {
+				case "any":
+					// an empty interface is nil exactly when it holds no dynamic type
+					return eq(c.kid("tag").S, "0")
 				case "slice":
 					ex.eng.smt.addAx(r, implies(r, eq(c.kid("len").S, "0")))
 					ex.eng.smt.addAx(r, implies("(> "+c.kid("len").S+" 0)", not(r)))
